@@ -35,6 +35,7 @@ DReqInit(advertise, initAuto) ==
     mustErr |-> FALSE,      \* a non-recoverable cause was seen: Dial must return an error
     okNil   |-> FALSE,      \* the task returned nil / canceled: Dial must return nil
     rstErr  |-> FALSE,      \* a restore failed with an error that is not tolerated: Dial must report it and stop
+    att     |-> [sock |-> FALSE, get |-> "none", set |-> "none"],   \* what the current dial attempt has done so far
     tolNow  |-> FALSE,      \* the restore of the connection cleaned up last failed with a tolerated error (no dial since)
     tolerated |-> FALSE,    \* the last restore failed with a tolerated error
     cancelAt|-> -1,
@@ -60,8 +61,17 @@ FailedAttempt(m, cls, t) ==
 DInv(m) == IF m.adv /\ m.sysctl = FALSE /\ m.auto0 = TRUE /\ m.open = 0 /\ m.socks = {} /\ ~m.tolerated
            THEN DFlag(m, "c11-autoconf-disabled-without-connection") ELSE m
 
+\* dial(): listen, then (advertise mode only) read the autoconfiguration value and disable it; a permission error on
+\* disabling is tolerated, any other failure of a step fails the attempt (and closes the socket); nothing else does
+AttemptOK(m) == /\ m.att.sock
+                /\ (m.adv => m.att.get = "ok" /\ m.att.set \in {"ok", "perm"})
+AttemptFails(m) == ~m.att.sock \/ (m.adv /\ (m.att.get = "fail" \/ m.att.set = "other"))
 OnDDial(m, e) ==      \* one dial attempt returned e.res at e.t (k > 0 iff ok)
   LET m1 == IF m.retAt # -1 THEN DFlag(m, "c10-dial-after-return")
+            ELSE IF e.res = "ok" /\ m.adv /\ m.att.sock /\ m.att.set = "none" /\ m.att.get # "fail"
+                 THEN DFlag(m, "c11-connection-opened-without-disabling-autoconf")
+            ELSE IF (e.res = "ok" /\ AttemptFails(m)) \/ (e.res # "ok" /\ AttemptOK(m))
+                 THEN DFlag(m, "c11-dial-result-does-not-follow-from-its-steps")
             ELSE IF m.open # 0 THEN DFlag(m, "c11-dial-while-connection-open")
             ELSE IF e.res # "ok" /\ m.socks # {} THEN DFlag(m, "c11-socket-left-open-by-failed-dial")
             ELSE IF e.res = "ok" /\ m.socks # {e.k} THEN DFlag(m, "c11-connection-without-its-socket")
@@ -72,7 +82,7 @@ OnDDial(m, e) ==      \* one dial attempt returned e.res at e.t (k > 0 iff ok)
             ELSE IF m.retry >= MaxAttempts THEN DFlag(m, "c10-more-than-max-attempts")
             ELSE IF m.retry >= 0 /\ m.cancelAt = -1 /\ e.t # m.due THEN DFlag(m, "c10-backoff-wait-wrong")
             ELSE m
-      m2 == [m1 EXCEPT !.first = FALSE, !.tolNow = FALSE]
+      m2 == [m1 EXCEPT !.first = FALSE, !.tolNow = FALSE, !.att = [sock |-> FALSE, get |-> "none", set |-> "none"]]
   IN IF e.res = "ok"
      THEN [m2 EXCEPT !.open = e.k, !.retry = -1, !.due = -1]
      ELSE FailedAttempt(m2, e.res, e.t)
@@ -90,7 +100,7 @@ OnDDone(m, e) ==      \* cleanup closure of connection e.k ran
   DInv([m1 EXCEPT !.cleaned = @ \cup {e.k}, !.open = 0])
 
 OnDSock(m, e)  == LET m1 == IF m.socks # {} \/ m.open # 0 THEN DFlag(m, "c11-socket-opened-while-another-is-open") ELSE m IN
-                  [m1 EXCEPT !.socks = @ \cup {e.s}]
+                  [m1 EXCEPT !.socks = @ \cup {e.s}, !.att.sock = TRUE]
 OnDClose(m, e) ==
   LET m1 == IF e.s \in m.closedS THEN DFlag(m, "c11-socket-closed-twice")
             ELSE IF e.s \notin m.socks THEN DFlag(m, "c11-close-of-unknown-socket") ELSE m IN
@@ -98,13 +108,14 @@ OnDClose(m, e) ==
 
 OnDGet(m, e) ==
   LET m1 == IF ~m.adv THEN DFlag(m, "c11-monitor-mode-touched-autoconf") ELSE m IN
-  IF e.res = "ok" THEN [m1 EXCEPT !.saved = e.val] ELSE m1      \* the attempt fails; OnDDial classifies it
+  IF e.res = "ok" THEN [m1 EXCEPT !.saved = e.val, !.att.get = "ok"] ELSE [m1 EXCEPT !.att.get = "fail"]      \* the attempt fails; OnDDial classifies it
 
 \* e.phase = "disable" (from dial) or "restore" (from the cleanup closure)
 OnDSet(m, e) ==
   LET m1 == IF ~m.adv THEN DFlag(m, "c11-monitor-mode-touched-autoconf") ELSE m IN
   IF e.phase = "disable"
-  THEN LET m2 == IF e.val # FALSE THEN DFlag(m1, "c11-autoconf-not-disabled") ELSE m1 IN
+  THEN LET m2 == [(IF e.val # FALSE THEN DFlag(m1, "c11-autoconf-not-disabled") ELSE m1)
+                      EXCEPT !.att.set = IF e.res \in {"ok", "perm"} THEN e.res ELSE "other"] IN
        IF e.res = "ok" THEN [m2 EXCEPT !.sysctl = FALSE]
        ELSE m2      \* "perm" is tolerated (the attempt goes on); anything else fails the attempt
   ELSE LET m2 == IF e.val # m.saved THEN DFlag(m1, "c11-autoconf-restored-to-wrong-value") ELSE m1 IN
